@@ -113,6 +113,11 @@ class FullQSDPass(BasePass):
             if self.perform_scan:
                 passes.append(self.scan)
             passes.append(self.mgd)
+
+        # Nothing wide enough to decompose
+        if len(passes) == 0:
+            return
+
         await Workflow(passes).run(circuit, data)
 
 
